@@ -159,8 +159,10 @@ def r_sliced_is_window(ctx: Ctx, rule: str) -> None:
                     label = "chain[" + ",".join(("~" if lz else "") + str(n) for n, lz in zip(sizes, lazies)) + "]"
                     out.append((label, Obj(chain_c, chain=ops)))
         if c.name == "SliceRowIterable":
-            for n in range(0, 4):
-                out.append((f"slice-of[{n}]", Obj(slice_c, target=seq(n), start=0, stop=None)))
+            # receivers with every kind of existing window: a second window must stay inside the first
+            for n in range(0, 5):
+                for s0, e0 in ((0, None), (1, None), (0, 2), (1, 3), (2, 2), (0, 0)):
+                    out.append((f"slice-of[{n}][{s0}:{'' if e0 is None else e0}]", Obj(slice_c, target=seq(n), start=s0, stop=e0)))
         if not out:
             # any other class: read as rows must be possible for a receiver of that class; we cannot build one
             raise AnalysisError(f"{c.name} overrides sliced(); the checker has no receivers for that class")
